@@ -685,6 +685,15 @@ func (tb *TB) bin(op Op, a, b *Term) *Term {
 			return tb.BV(w, uint64(sx>>y))
 		}
 	}
+	// arithmetic with a constant distributes over small ite-of-constants trees
+	if b.IsConst() && a.Op == OpIte && (op == OpURem || op == OpSRem || op == OpUDiv || op == OpMul || op == OpSub || op == OpBAnd) {
+		bb := b
+		if r := tb.mapIteConst(a, func(k uint64) uint64 {
+			return tb.bin(op, tb.BV(w, k), bb).K
+		}, 8); r != nil {
+			return r
+		}
+	}
 	switch op {
 	case OpAdd:
 		if a.IsConst() && a.K == 0 {
